@@ -22,6 +22,7 @@ type txObs struct {
 	HBefore []*Event // before TF
 	HAfter  []*Event // after TF
 	Line    int
+	vetoes  map[*Event]bool // handler calls that returned false (filled for C02)
 }
 
 type caseInfo struct {
@@ -423,6 +424,17 @@ func Monitor(prop string, c Case, sch *Schema, obs []OpObs) []Failure {
 			}
 		}
 	case "C02":
+		{
+			acts := handlerActs(c, obs)
+			for k := range txs {
+				txs[k].vetoes = map[*Event]bool{}
+				for _, h := range txs[k].HBefore {
+					if acts[h] == "f" {
+						txs[k].vetoes[h] = true
+					}
+				}
+			}
+		}
 		if ci.faulty {
 			break
 		}
@@ -553,6 +565,26 @@ func Monitor(prop string, c Case, sch *Schema, obs []OpObs) []Failure {
 					add(li, "", "CanAdd/CanRemove changed the machine")
 				}
 			}
+			// a check answers what the same mutation returns when it is issued next (non-Multi states,
+			// handlers that do not depend on how often they were called)
+			if !isCheck && prev != nil && !ci.faulty && !ci.nested && !ci.nthRules && !ci.detach && !ci.disposes {
+				pf := strings.Fields(prev.Line)
+				of := strings.Fields(o.Line)
+				if len(pf) == 2 && len(of) == 2 && pf[1] == of[1] &&
+					((pf[0] == "canadd" && of[0] == "add") || (pf[0] == "canremove" && of[0] == "remove")) &&
+					prev.Crash == "" && (prev.ResStr == "executed" || prev.ResStr == "canceled") &&
+					(o.ResStr == "executed" || o.ResStr == "canceled") {
+					multi := false
+					for _, x := range parseList(of[1]) {
+						if x >= 0 && x < n && sch.Defs[x].Multi {
+							multi = true
+						}
+					}
+					if !multi && prev.ResStr != o.ResStr {
+						add(li, "", "%s answered %s, the same mutation issued next returned %s", pf[0], prev.ResStr, o.ResStr)
+					}
+				}
+			}
 			if ci.faulty || isCheck || op == "adderr" || op == "toggle" {
 				continue
 			}
@@ -588,10 +620,19 @@ func Monitor(prop string, c Case, sch *Schema, obs []OpObs) []Failure {
 			depth := 0
 			promised := map[uint64]bool{}
 			var inTx *Event
+			var waiting []*Event // queued and not yet shifted (MQ seen, TI not yet)
 			for i := range o.Events {
 				e := &o.Events[i]
 				switch e.Kind {
+				case "MQ":
+					waiting = append(waiting, e)
 				case "TI":
+					for k, w := range waiting {
+						if w.MutKind == e.MutKind && eqSet(w.Called, e.Called) && w.QTickMut == e.QTickMut {
+							waiting = append(waiting[:k], waiting[k+1:]...)
+							break
+						}
+					}
 					if depth != 0 {
 						add(li, "", "a transition started inside another one (nested instead of queued)")
 					}
@@ -615,6 +656,19 @@ func Monitor(prop string, c Case, sch *Schema, obs []OpObs) []Failure {
 						var tk uint64
 						fmt.Sscan(e.ResStr[7:], &tk)
 						promised[tk] = true
+					}
+					// a mutation issued while others wait is queued behind them, not answered on the
+					// spot: Executed without a tick is right only for a duplicate of a waiting mutation
+					if e.ResStr == "executed" && e.QLen > 0 && len(waiting) > 0 && !ci.faulty {
+						dup := false
+						for _, w := range waiting {
+							if w.MutKind == e.MutKind && eqSet(w.Called, goUniq(e.Called)) {
+								dup = true
+							}
+						}
+						if !dup {
+							add(li, "", "a %s of %v issued from a handler behind %d waiting mutations was answered Executed without being queued", e.MutKind, e.Called, len(waiting))
+						}
 					}
 				}
 			}
@@ -798,6 +852,13 @@ func Monitor(prop string, c Case, sch *Schema, obs []OpObs) []Failure {
 			}
 			if !tx.TE.Acc && len(tx.HAfter) > 0 {
 				add(tx.Line, "", "final handlers ran for a non-accepted transition")
+			}
+		}
+		// inside an auto transition a vetoed Auto state is stopped too (judged one by one: C07's monitor)
+		for _, f := range Monitor("C07", c, sch, obs) {
+			if strings.Contains(f.Msg, "was vetoed by") {
+				f.Prop = "C05"
+				fails = append(fails, f)
 			}
 		}
 	case "C07":
@@ -1555,6 +1616,43 @@ func sigC02Readd(sch *Schema, tx txObs, x, y int) string {
 	// second parseAdd); a surviving remover always puts y into toRemove.
 	if !scanSurvivors(sch, tx)[x] {
 		return "C02-readd-after-blocked-blocker"
+	}
+	// a partially rejected auto transition is resolved a second time, with the rejected Auto
+	// states (dropped by relations at first, or vetoed by their negotiation handlers) taken out of
+	// the called list: the same hole, reached through that second resolution
+	if tx.TI.IsAuto {
+		vetoed := map[int]bool{}
+		for _, h := range tx.HBefore {
+			if tx.vetoes == nil || !tx.vetoes[h] {
+				continue
+			}
+			p := strings.Split(h.HName, ":")
+			var st int
+			switch {
+			case p[0] == "enter" && len(p) == 2:
+				fmt.Sscan(p[1], &st)
+				vetoed[st] = true
+			case p[0] == "trans" && len(p) == 3:
+				fmt.Sscan(p[2], &st)
+				vetoed[st] = true
+			}
+		}
+		inTarget := setOf(tx.TI.Target)
+		var eff []int
+		for _, c := range tx.TI.Called {
+			if inTarget[c] && !vetoed[c] {
+				eff = append(eff, c)
+			}
+		}
+		if len(eff) != len(tx.TI.Called) {
+			ti := *tx.TI
+			ti.Called = eff
+			tx2 := tx
+			tx2.TI = &ti
+			if !scanSurvivors(sch, tx2)[x] {
+				return "C02-readd-after-blocked-blocker"
+			}
+		}
 	}
 	return ""
 }
